@@ -54,6 +54,7 @@ var (
 	cRevisit      = simrt.RegisterCounter("op_device_set_planned_again_after_many_others")
 	cReuseBuf     = simrt.RegisterCounter("fault_caller_reuses_its_device_list_buffer")
 	cScribble     = simrt.RegisterCounter("fault_caller_overwrites_a_plan_it_was_handed")
+	cAddOther    = simrt.RegisterCounter("addchannel_did_something_else_than_append_and_the_model_followed")
 	cPlaceholder  = simrt.RegisterCounter("op_add_placeholder_slot_frequency_0")
 	cFreshChanged = simrt.RegisterCounter("probe_fresh_config_differs_after_run")
 	cNotConverged = simrt.RegisterCounter("probe_not_converged_after_faults")
@@ -269,6 +270,7 @@ func (w *world) bandOp(r *sim.Rand) {
 			}
 		}
 		w.m.Add(f, minDR, maxDR, on)
+		w.followAdd(n, f, minDR, maxDR)
 		simrt.Trace(evOp, 1, uint64(n))
 	case k < 7:
 		i := r.Intn(n)
@@ -467,6 +469,74 @@ func (w *world) judge(dev []int, label string) []lorawan.LinkADRReqPayload {
 		}
 	}
 	return pls
+}
+
+// followAdd: what an accepted AddChannel does to the plan beyond "there is now
+// a custom channel with these parameters" is not in the statement (a band may
+// append a channel, recognise one it already has, fill an unused slot). The
+// model appended; if the band did something else that leaves the standard and
+// the other custom channels as they were, the model follows the band.
+func (w *world) followAdd(nBefore int, f uint32, minDR, maxDR int) {
+	var obs []spec.Chan
+	ok := true
+	if sim.Guard("panic.plan", func() {
+		custom, enabled := map[int]bool{}, map[int]bool{}
+		for _, i := range w.b.GetCustomUplinkChannelIndices() {
+			custom[i] = true
+		}
+		for _, i := range w.b.GetEnabledUplinkChannelIndices() {
+			enabled[i] = true
+		}
+		for k, i := range w.b.GetUplinkChannelIndices() {
+			c, err := w.b.GetUplinkChannel(i)
+			if i != k || err != nil {
+				ok = false
+				return
+			}
+			obs = append(obs, spec.Chan{Freq: c.Frequency, MinDR: c.MinDR, MaxDR: c.MaxDR, Enabled: enabled[i], Custom: custom[i]})
+		}
+	}) || !ok {
+		return
+	}
+	m := w.m.Chans
+	same := len(obs) == len(m)
+	for i := 0; same && i < len(m); i++ {
+		same = obs[i] == m[i]
+	}
+	if same || len(obs) < nBefore || len(obs) > nBefore+1 {
+		return
+	}
+	isNew := func(c spec.Chan) bool { return c.Custom && c.Freq == f && c.MinDR == minDR && c.MaxDR == maxDR }
+	found := false
+	for i, c := range obs {
+		if isNew(c) {
+			found = true
+		}
+		if i >= nBefore {
+			if !c.Custom {
+				return
+			}
+			continue
+		}
+		old := m[i]
+		switch {
+		case !old.Custom:
+			if c != old {
+				return
+			}
+		case old.Freq == 0 && isNew(c):
+		case isNew(c) && isNew(old):
+		default:
+			if c != old {
+				return
+			}
+		}
+	}
+	if !found {
+		return
+	}
+	simrt.Count(cAddOther)
+	w.m.Chans = obs
 }
 
 // ownerWrite*: writes a caller is entitled to make to memory it owns (its
